@@ -1358,3 +1358,94 @@ func ruleReadOptionsUsed(r *Run) {
 	}
 	r.check(n >= 8, "neuronjson:read-option-parameters", fmt.Sprintf("%d option parameters", n), "fewer than confirmed by reading: rule needs review", "-")
 }
+
+// ---------------------------------------------------------------------------------------------
+// R16.22 / R3.20 — a field count that reaches zero leaves the table;  R16.23 / R3.21 — the time
+// table only moves forward.
+
+func init() {
+	reg := func(id, prop string) {
+		register(ruleDef{ID: id, Prop: prop, Tier: "quick", Floor: 2,
+			Title: "a field nobody uses any more is not listed: every function that decrements an entry of the in-memory field-count table also deletes entries from that table (under a test of the count), as a reload from the store would not list the field",
+			Fn:    ruleZeroCountDropped})
+	}
+	reg("R16.22", "C16")
+	reg("R3.20", "C03")
+	reg2 := func(id, prop string) {
+		register(ruleDef{ID: id, Prop: prop, Tier: "quick", Floor: 2,
+			Title: "the field-time table gives the latest change, however it is built: every store into the in-memory field-time table is decided by a lookup of the entry it replaces (absent, or older), in updates as in the start-up scan",
+			Fn:    ruleFieldTimesMonotone})
+	}
+	reg2("R16.23", "C16")
+	reg2("R3.21", "C03")
+}
+
+func ruleZeroCountDropped(r *Run) {
+	w := r.W
+	n := 0
+	for _, f := range w.RepoFuncs {
+		if relPkg(pkgPathOf(f)) != "datatype/neuronjson" || len(f.Blocks) == 0 || strings.HasSuffix(w.fposFile(f), "_test.go") {
+			continue
+		}
+		var dec *ssa.MapUpdate
+		drops := false
+		for _, b := range f.Blocks {
+			for _, in := range b.Instrs {
+				if mu, ok := in.(*ssa.MapUpdate); ok && isFieldLoad(mu.Map, "memdb", "fields") {
+					if bo, ok := mu.Value.(*ssa.BinOp); ok && bo.Op == token.SUB {
+						dec = mu
+					}
+				}
+				if c, ok := in.(*ssa.Call); ok {
+					if bi, ok := c.Call.Value.(*ssa.Builtin); ok && bi.Name() == "delete" && len(c.Call.Args) == 2 && isFieldLoad(c.Call.Args[0], "memdb", "fields") {
+						drops = true
+					}
+				}
+			}
+		}
+		if dec == nil {
+			continue
+		}
+		n++
+		r.check(drops, fname(f)+":field-count:dropped-at-zero", "the function deletes exhausted entries",
+			"a field count is decremented and never removed: after the last annotation with the field is deleted or the field is nulled, fields?counts=true on the head lists \"field\":0 while the store path and a restarted server do not list the field", w.pos(dec.Pos()))
+	}
+	r.check(n >= 1, "neuronjson:field-count-decrementers", fmt.Sprintf("%d functions decrement field counts", n), "none found: rule needs review", "-")
+}
+
+func ruleFieldTimesMonotone(r *Run) {
+	w := r.W
+	n := 0
+	for _, f := range w.RepoFuncs {
+		if relPkg(pkgPathOf(f)) != "datatype/neuronjson" || len(f.Blocks) == 0 || strings.HasSuffix(w.fposFile(f), "_test.go") {
+			continue
+		}
+		k := 0
+		for _, b := range f.Blocks {
+			for _, in := range b.Instrs {
+				mu, ok := in.(*ssa.MapUpdate)
+				if !ok || !isFieldLoad(mu.Map, "memdb", "fieldTimes") {
+					continue
+				}
+				k++
+				n++
+				// decided by a lookup of the same table under the same key
+				decided := false
+				for _, b2 := range f.Blocks {
+					ifi, ok := b2.Instrs[len(b2.Instrs)-1].(*ssa.If)
+					if !ok || !b2.Dominates(b) || b2 == b {
+						continue
+					}
+					for d := range dataDeps(ifi.Cond) {
+						if lk, ok := d.(*ssa.Lookup); ok && isFieldLoad(lk.X, "memdb", "fieldTimes") && coordKey(lk.Index) == coordKey(mu.Key) {
+							decided = true
+						}
+					}
+				}
+				r.check(decided, fmt.Sprintf("%s:field-time-store#%d", fname(f), k), "the store is decided by a lookup of the entry it replaces",
+					"a time is written into the field-time table without a look at the entry it replaces: an update that carries an older <field>_time forward moves the table backwards, while the start-up scan takes the latest time — fieldtimes differs across a restart", w.pos(mu.Pos()))
+			}
+		}
+	}
+	r.check(n >= 2, "neuronjson:field-time-stores", fmt.Sprintf("%d stores into the field-time table", n), "fewer than confirmed by reading: rule needs review", "-")
+}
